@@ -1474,6 +1474,9 @@ class Exec:
             return z3.ToReal(S.un_int(v.t))
         if k == "bool":
             return z3.If(S.un_bool(v.t), z3.RealVal(1), z3.RealVal(0))
+        if k == "any":
+            self.note_assumption("dynamically typed values used in arithmetic (results of rate laws) are floats")
+            return S.un_real(v.t)
         raise Unsupported(f"numeric view of {v.ty} (line {self.cur_line})")
 
     def rmul(self, x, y):
@@ -1523,7 +1526,9 @@ class Exec:
                         r2 = r2 * x
                     return sv_int(r2)
                 raise Unsupported("int ** symbolic")
-        if a.ty.is_num and b.ty.is_num:
+        if (a.ty.is_num or a.ty.kind == "any") and (b.ty.is_num or b.ty.kind == "any") and isinstance(
+            op, (ast.Add, ast.Sub, ast.Mult, ast.Div, ast.Pow)
+        ):
             x, y = self.num(a), self.num(b)
             if isinstance(op, ast.Add):
                 return sv_real(x + y)
